@@ -9,6 +9,7 @@ import (
 	"net"
 	"os"
 	"sync"
+	"sync/atomic"
 	"time"
 
 	mail "github.com/wneessen/go-mail"
@@ -393,6 +394,11 @@ func runC17(r *ev.Run, rep *ev.ReplayDoc) ev.Summary {
 			r.Eval("replay", true)
 			return sum
 		}
+		var rc c17RedialCase
+		if json.Unmarshal(rep.Case, &rc) == nil && rc.Redial {
+			runC17Redial(r, rc)
+			return sum
+		}
 		var c c17Case
 		if err := json.Unmarshal(rep.Case, &c); err != nil {
 			r.HarnessError("bad replay case: " + err.Error())
@@ -431,11 +437,95 @@ func runC17(r *ev.Run, rep *ev.ReplayDoc) ev.Summary {
 			r.Sample(cases[i])
 		}
 	})
+	// a second DialWithContext while the Client still holds a connection whose server has gone silent
+	rcs := []c17RedialCase{{Silent: "stall", TimeoutMS: 300, Redial: true}, {Silent: "mute", TimeoutMS: 300, Redial: true}}
+	r.ParallelN(2, len(rcs), func(i int) { runC17Redial(r, rcs[i]) })
 	if !ev.RaceSlice() {
 		runC17ImplicitAll(r)
 	}
 	r.CollectRaceLogs()
 	return sum
+}
+
+// c17RedialCase: DialWithContext on a Client that still holds the connection of an earlier DialWithContext whose server
+// has gone silent since (it holds the connection; "mute": it keeps reading). The second dialogue itself is healthy.
+type c17RedialCase struct {
+	Silent    string `json:"first_server"` // stall | mute
+	TimeoutMS int    `json:"timeout_ms"`
+	Redial    bool   `json:"redial_case"`
+}
+
+func runC17Redial(r *ev.Run, c c17RedialCase) {
+	timeout := time.Duration(c.TimeoutMS) * time.Millisecond
+	watchdog := 20 * timeout
+	if watchdog < 5*time.Second {
+		watchdog = 5 * time.Second
+	}
+	var silent int32
+	farm := &refsmtp.Farm{NewConfig: func(n int) *refsmtp.Config {
+		return &refsmtp.Config{AllowUTF8: true, Decide: func(st refsmtp.Step) refsmtp.Action {
+			if n == 0 && atomic.LoadInt32(&silent) == 1 {
+				if c.Silent == "mute" {
+					return refsmtp.Action{Kind: refsmtp.Mute}
+				}
+				return refsmtp.Action{Kind: refsmtp.Stall}
+			}
+			return refsmtp.Action{}
+		}}
+	}}
+	defer farm.Shutdown()
+	cl, err := mail.NewClient(netHost, mail.WithDialContextFunc(farm.Dial), mail.WithTimeout(timeout), mail.WithHELO("client.verif.example"), mail.WithTLSPolicy(mail.NoTLS))
+	if err != nil {
+		r.HarnessError("C17 redial NewClient: " + err.Error())
+		return
+	}
+	ctx, cancel := context.WithTimeout(context.Background(), 2*watchdog)
+	defer cancel()
+	if err := cl.DialWithContext(ctx); err != nil {
+		r.HarnessError("C17 redial first dial: " + err.Error())
+		return
+	}
+	atomic.StoreInt32(&silent, 1)
+	var dErr error
+	done := make(chan struct{})
+	t0 := time.Now()
+	go func() {
+		defer close(done)
+		defer func() { _ = recover() }()
+		dErr = cl.DialWithContext(ctx)
+	}()
+	hung := false
+	select {
+	case <-done:
+	case <-time.After(watchdog + timeout):
+		hung = true
+	}
+	el := time.Since(t0)
+	_, conns := farm.Snapshot()
+	var noDeadline []string
+	for ci, tc := range conns {
+		pr, pw := tc.PendingIO()
+		for _, o := range append(pr, pw...) {
+			if o.Deadline.IsZero() {
+				noDeadline = append(noDeadline, fmt.Sprintf("connection %d: operation pending with no deadline armed", ci))
+			} else if o.Deadline.After(t0.Add(timeout + c17Slack + watchdog)) {
+				noDeadline = append(noDeadline, fmt.Sprintf("connection %d: deadline %v after the call started", ci, o.Deadline.Sub(t0)))
+			}
+		}
+	}
+	farm.Shutdown()
+	r.Count("redials_with_a_silent_earlier_connection", 1)
+	r.Eval(fmt.Sprintf("redial|%+v", c), true)
+	if !hung {
+		r.Max("max_return_ms", el.Milliseconds())
+		_ = dErr
+		return
+	}
+	if len(noDeadline) > 0 {
+		r.Violate(ev.Violation{Key: "blocked-without-deadline:redial:" + c.Silent, What: fmt.Sprintf("DialWithContext (timeout %v) on a Client whose earlier connection has a silent server was still blocked %v after it started; pending: %v", timeout, watchdog+timeout, noDeadline), Case: c})
+	} else {
+		r.Inconclusive("C17 redial did not return before the watchdog although deadlines were armed")
+	}
 }
 
 // ---- implicit TLS (the library's own tls.Dialer over real loopback TCP) ----------------------
